@@ -267,6 +267,36 @@ fn c20_reciting_evidence_adds_no_group() {
     repetition(false);
 }
 
+// an actor who joined a group through shared evidence stays in it: a later assertion by the same actor
+// (sharing no evidence) is repetition, not a new voice (added after seeded change C20-4, which dropped
+// the actor key of a candidate that joins through evidence)
+// @check id=C20 tier=quick cap=900 role=actor_key_survives_joining_through_evidence
+// @fns projection::aggregate
+// @bound X (actor 0, evidence 0), Y (actor 1, evidence 0) joins X through the shared evidence, Y2 (actor 1, evidence 2) repeats actor 1; recorded in this order; confidences any f64 in [0,1]
+// @stubs alloc::fmt::format -> positional model
+#[kani::proof]
+#[kani::unwind(14)]
+#[kani::stub(alloc::fmt::format, format_model)]
+fn c20_actor_who_joined_through_evidence_is_still_one_voice() {
+    let c: [f64; 3] = kani::any();
+    kani::assume(unit(c[0]) && unit(c[1]) && unit(c[2]));
+    set_keys(&[akey(0), ekey(0), akey(1), ekey(0), akey(1), ekey(2)]);
+    let v = vec![
+        cand(1, 0, Some(0), "support", c[0], false),
+        cand(2, 1, Some(0), "support", c[1], false),
+        cand(3, 1, Some(2), "support", c[2], false),
+    ];
+    let (score, groups) = aggregate(&v, false);
+    assert!(model_calls_ok(6), "format! call pattern as modelled");
+    assert!(groups == 1, "repeating an assertion by an actor already in a group adds no independent group");
+    let m = if c[0] >= c[1] { c[0] } else { c[1] };
+    let m = if m >= c[2] { m } else { c[2] };
+    assert!(score == 1.0 - (1.0 - m), "and the group still contributes only its strongest member");
+    kani::cover!(c[2] > c[0] && c[2] > c[1], "the repetition is the strongest member");
+    kani::cover!(c[2] < c[0], "the repetition is weaker");
+    std::mem::forget(v);
+}
+
 // A bridging assertion merges two groups that looked independent; the merged group contributes its
 // single strongest member wherever the strongest member was recorded.
 fn bridged(pos: u8) {
